@@ -113,13 +113,19 @@ def same_value(a, b, tol, absval=False, modpi=False):
     if modpi and np.all(np.isfinite(x)) and np.all(np.isfinite(y)):
         d = np.abs(np.real(x) - np.real(y))
         return bool(np.all(np.minimum(d, np.abs(d - np.pi)) <= 1e-6))
-    if np.iscomplexobj(x) or np.iscomplexobj(y):
-        # an infinite value of a complex quotient has no meaningful sign / imaginary part (-inf for real input, inf+nanj for the
-        # same input given as complex numbers): non-finite positions only have to coincide
-        fx, fy = np.isfinite(x), np.isfinite(y)
-        if not np.array_equal(fx, fy):
+    if np.iscomplexobj(x) or np.iscomplexobj(y) or not (np.all(np.isfinite(x)) and np.all(np.isfinite(y))):
+        # an infinite value of a quotient has no meaningful sign / imaginary part (-inf for real input, inf+nanj for the same input
+        # given as complex numbers), and a division by an exact zero gives inf where a division by a rounded zero (another summation
+        # order of the same contraction) gives something of the order 1e16: both mean "infinite" (the one point at infinity of the
+        # projective line of values); infinite positions only have to coincide.  nan stays nan (compared by equal_nan below).
+        with np.errstate(invalid="ignore"):
+            ix = np.isinf(x) | (np.abs(np.nan_to_num(x, nan=0.0, posinf=np.inf, neginf=np.inf)) > 1e12)
+            iy = np.isinf(y) | (np.abs(np.nan_to_num(y, nan=0.0, posinf=np.inf, neginf=np.inf)) > 1e12)
+        if np.iscomplexobj(x) or np.iscomplexobj(y):
+            ix, iy = ix | ~np.isfinite(x), iy | ~np.isfinite(y)
+        if not np.array_equal(ix, iy):
             return False
-        x, y = np.where(fx, x, 0), np.where(fy, y, 0)
+        x, y = np.where(ix, 0, x), np.where(iy, 0, y)
     return bool(np.allclose(x, y, rtol=tol, atol=tol, equal_nan=True))
 
 
